@@ -29,6 +29,7 @@ import (
 	"regexp"
 	"runtime"
 	"runtime/debug"
+	"sort"
 	"strings"
 	"unsafe"
 
@@ -166,6 +167,8 @@ func c11MemFiles(in c11Input) []*std.MemFile {
 	for i, f := range in.Files {
 		fs[i] = &std.MemFile{Name: f.Name, Body: f.Body}
 	}
+	// a client submits the files sorted by name (MemPackage.ValidateBasic requires it)
+	sort.Slice(fs, func(i, j int) bool { return fs[i].Name < fs[j].Name })
 	return fs
 }
 
@@ -479,6 +482,11 @@ func c11ClassifyPanic(out *c11Outcome, r any, stack []byte, escaped bool) {
 		var oog stypes.OutOfGasError
 		if goerrors.As(err, &oog) {
 			out.Class = c11OutOfGas
+			if strings.HasSuffix(oog.Descriptor, "Preprocess") {
+				out.Reached = "validate" // the per-byte charge before the type check
+			} else {
+				out.Reached = "vm"
+			}
 			return
 		}
 		var rte runtime.Error
